@@ -390,6 +390,32 @@ func runC14(c *core.Ctx) {
 		}
 	}
 
+	// ---- every IPv4 identification value: the listener numbers its frames consecutively from a random
+	// start, so 65,536 acknowledged one-byte segments make it emit every id once; each frame's header
+	// and TCP checksums are recomputed (the header checksum depends on the id)
+	for _, pk := range []int{6, 200} {
+		pk := pk
+		c.Case(fmt.Sprintf("ipid-sweep/peer%d", pk), func() {
+			n := 65536
+			segs := make([]int, n)
+			for i := range segs {
+				segs[i] = 1
+			}
+			cn := &c14Conn{ip: clientIP(pk), sport: 40000, dport: 8081, isn: 1<<32 - 70000, stream: c14Stream(8081, n), segs: segs, pshAll: true, tail: "none"}
+			r := newC14Run(c, []*c14Conn{cn})
+			for i := 0; i < cn.nframes(); i++ {
+				r.next(0)
+			}
+			r.finish()
+			for i := range r.sigs { // its own signatures: these verdicts do not depend on the random first id
+				r.sigs[i] = "C14:ipid-sweep:" + strings.TrimPrefix(r.sigs[i], "C14:")
+			}
+			r.report(fmt.Sprintf("65536 one-byte segments from %s (every IPv4 id once)", cn.ip))
+			c.Outcome("ipid-sweep", fmt.Sprint(pk), fmt.Sprint(len(r.trace[cn.id()])))
+			c.Note(fmt.Sprintf("ipid sweep from %s: %d frames emitted and checked", cn.ip, len(r.trace[cn.id()])))
+		})
+	}
+
 	// ---- the same address and port pair again after an earlier connection ended (its entry may still
 	// be in the state table): the new SYN opens a new connection like any other
 	c.Case("reconnect/same port pair", func() {
